@@ -104,10 +104,13 @@ def parse(s):
 
 
 def fmt(v):
-    if isinstance(v, bool):
+    import numbers
+    if isinstance(v, bool) or type(v).__name__ == "bool_":
         return "TRUE" if v else "FALSE"
     if isinstance(v, int):
         return str(v)
+    if isinstance(v, numbers.Integral):          # numpy integers observed in the implementation (e.g. herald keys)
+        return str(int(v))
     if isinstance(v, str):
         return '"' + v + '"'
     if isinstance(v, (tuple, list)):
